@@ -134,7 +134,9 @@ def metricsJHandlers : List (String × JHandler) := [
     if !gwrites.isEmpty && gwrites.length != effs.size then throw "gwrites: one entry per strategy expected"
     let assigned ← natArr "assign"
     if !assigned.isEmpty && assigned.length != effs.size then throw "assign: one worker index per strategy expected"
-    let strats := effects.zipIdx.map (fun (e, i) => Manager.probeGStrat e (fails.getD i false) (gwrites.getD i 0))
+    -- … on top of what the source says the Actuator itself leaves behind (a class-level `Snapshot.market_status`: every backtest writes)
+    let strats := effects.zipIdx.map (fun (e, i) =>
+      (Manager.probeGStrat e (fails.getD i false) (gwrites.getD i 0)).underActuator Gen.snapshotHoldsNoSharedObject (fun g _ _ => g + 1))
     let cpu := match jOpt j "cpu" with | some (.num n) => n.mantissa.toNat | _ => 1024
     let env := Manager.probeEnv (flag "priceDec" false) (flag "linked" false)
     let cfg : Option Manager.PM := if flag "cfgNone" false then none else some (0, 0, true)
